@@ -11,7 +11,7 @@ ID = "C07"
 PROPS_FILE = "theories/Props/C07.v"
 EXTRACT = ("theories/Extract/XC07.v", "c07",
            ["entry_kernel", "entry_wrapper", "entry_geom", "entry_check", "entry_spec", "entry_corr",
-            "entry_wcorr", "entry_merge"])
+            "entry_wcorr", "entry_merge", "entry_alloc"])
 PYX = {"_filter.pyx": ["HistogramPiece", "Histogram", "PixelCount", "SCoord", "Histograms", "allocate_histograms",
                        "set_stride", "tl_br_colidx", "tr_bl_colidx", "leading_edge_colidx", "trailing_edge_colidx",
                        "add16", "sub16", "accumulate_coarse_histogram", "deaccumulate_coarse_histogram",
@@ -24,7 +24,9 @@ RULE = ("kernel cases: _filter.median_filter on uint8 images 1x1..14x14 (thoroug
         "0-and-255 extremes; wrapper cases: filter.median_filter on uint8, int64 0..255 (pass-through), int32 wide, "
         "negative, float64/float32 dyadic data, mask None / bool, incl. > 255 distinct values (order-preserving "
         "merge); non-trivial = some window is non-empty, the image has >= 2 distinct unmasked values and >= 4 "
-        "pixels; distinct by hash of the case")
+        "pixels; very wide / very tall class: 1xN, Nx1, 2xN with N around 1 573 243 on both sides of the 32-bit "
+        "allocation threshold (fork-isolated; periodic contents, output checked on three crops against model and spec "
+        "and for periodicity in between; 3 cases quick, 11 thorough); distinct by hash of the case")
 TRUSTED = [
     "modelled, not verified: the circular-buffer bookkeeping of the sliding histograms (the sliding invariant is "
     "proved only at the level of the octagon geometry and of the per-piece point sets; the line-level Gallina "
@@ -37,12 +39,17 @@ TRUSTED = [
     "rank_order's decimation loop (> 255 distinct values) is not modelled, only checked on its observed output",
     "float data are dyadic (k/4) and sent to the model as the integers 4*value (order and equality preserved)",
 ]
-ASSUMPTIONS = ["window area < 65536 (uint16 bin counts; radius <= 100 or so)", "0 <= percent <= 100, radius >= 1",
+ASSUMPTIONS = ["fewer than 65536 unmasked pixels per window (uint16 bin counts): PROVED for every radius <= 127 "
+               "(C07_WinSmall_of_radius); sharp: radius 141 (66145-point octagon) fails on a constant image",
+               "columns + 2*radius + 1 < 1573248 (32-bit scratch size of allocate_histograms, C07_alloc_size_exact_below; "
+               "beyond it the compiled code segfaults: known finding F23); rows*columns < 2^31 (int32 strides)",
+               "0 <= percent <= 100 integral (a non-integral percent is truncated by the int32 argument), radius >= 1",
                "data free of NaN; bool mask of the image's shape"]
 EXHAUSTIVE = {"quick": False, "thorough": False}
 CASE_TIMEOUT = 60
 
 CHECK_FAIL = "output is not the percentile of the masked octagon window (Spec.MedianSpec.check_median = false)"
+CRASH_FAIL = "implementation crashed (signal %d) on a valid input"
 INDEP_FAIL = ("the result changes when pixels OUTSIDE the mask are replaced by 0 (the statistic must be one of "
               "the masked data only)")
 PERCENTS = [0, 1, 25, 50, 75, 99, 100]
@@ -70,10 +77,56 @@ def gen_files(ctx):
     for r in range(0, 4097):
         if int(float(r) * float(mul) / float(den)) != (r * n) // d:
             raise RuntimeError("float truncation differs from the rational floor at radius %d" % r)
+    # --- allocate_histograms: the scratch size expression, its C types and the struct sizes (finding F23)
+    decl = re.findall(r"^\s*(unsigned int|size_t|unsigned long|int|long)\s+__pyx_v_memory_size;", src, re.M)
+    decl_sl = re.findall(r"^\s*(unsigned int|size_t|unsigned long|int|long)\s+__pyx_v_adjusted_stripe_length;", src, re.M)
+    if len(decl) != 1 or len(decl_sl) != 1:
+        raise RuntimeError("allocate_histograms: declaration of memory_size / adjusted_stripe_length not recognised")
+    expr_ok = (
+        "__pyx_v_adjusted_stripe_length = ((__pyx_v_columns + (2 * __pyx_v_radius)) + 1);" in src and
+        "__pyx_v_memory_size = (((__pyx_v_adjusted_stripe_length * ((sizeof(struct __pyx_t_10centrosome_7_filter_Histogram)) + "
+        "(sizeof(struct __pyx_t_10centrosome_7_filter_PixelCount)))) + (sizeof(struct __pyx_t_10centrosome_7_filter_Histograms))) + 32);"
+        in src and "__pyx_v_ptr = malloc(__pyx_v_memory_size);" in src)
+    if not expr_ok:
+        raise RuntimeError("allocate_histograms: size expression / malloc call not recognised in _filter.cpp")
+    bits = {"unsigned int": 32, "int": 32, "size_t": 64, "unsigned long": 64, "long": 64}[decl[0]]
+    if decl_sl[0] not in ("unsigned int", "size_t", "unsigned long"):
+        raise RuntimeError("adjusted_stripe_length is signed: not modelled")
+    body = ""
+    td = re.search(r"^typedef __pyx_t_5numpy_uint16_t __pyx_t_10centrosome_7_filter_pixel_count_t;", src, re.M)
+    if not td:
+        raise RuntimeError("pixel_count_t typedef not recognised")
+    body += td.group(0) + "\n"
+    for nm in ("HistogramPiece", "Histogram", "PixelCount", "SCoord", "Histograms"):
+        ms = re.search(r"^struct __pyx_t_10centrosome_7_filter_%s \{.*?^\};" % nm, src, re.S | re.M)
+        if not ms:
+            raise RuntimeError("struct %s not found in _filter.cpp" % nm)
+        body += ms.group(0) + "\n"
+    body = re.sub(r"__pyx_t_5numpy_(u?int\d+)_t", r"\1_t", body)
+    prog = ("#include <stdint.h>\n#include <stdio.h>\n" + body +
+            "int main(){printf(\"%zu %zu %zu %zu\\n\", sizeof(struct __pyx_t_10centrosome_7_filter_Histogram), "
+            "sizeof(struct __pyx_t_10centrosome_7_filter_PixelCount), sizeof(struct __pyx_t_10centrosome_7_filter_Histograms), "
+            "sizeof(unsigned int));return 0;}\n")
+    import subprocess, tempfile
+    with tempfile.TemporaryDirectory(dir=ctx.scratch) as td_:
+        cpp = os.path.join(td_, "sz.cpp")
+        with open(cpp, "w") as f:
+            f.write(prog)
+        r = subprocess.run(["g++", "-O0", "-o", os.path.join(td_, "sz"), cpp], capture_output=True, text=True)
+        if r.returncode != 0:
+            raise RuntimeError("struct size probe does not compile: " + r.stderr[-400:])
+        szs = [int(x) for x in subprocess.check_output([os.path.join(td_, "sz")], text=True).split()]
+    if szs[3] != 4 and bits == 32:
+        raise RuntimeError("unsigned int is not 32 bits on this platform")
     text = ("(* generated by harness/props/c07.py from centrosome/_filter.cpp (allocate_histograms):\n"
-            "   a = <int>(<float64>radius * %s / %s) *)\n"
+            "   a = <int>(<float64>radius * %s / %s);\n"
+            "   %s memory_size = stripe_length * (sizeof(Histogram) + sizeof(PixelCount)) + sizeof(Histograms) + 32,\n"
+            "   struct sizes measured with g++ on the struct definitions of the generated C++ *)\n"
             "From Coq Require Import ZArith.\nOpen Scope Z_scope.\n"
-            "Definition gen_oct_num : Z := %d.\nDefinition gen_oct_den : Z := %d.\n" % (mul, den, n, d))
+            "Definition gen_oct_num : Z := %d.\nDefinition gen_oct_den : Z := %d.\n"
+            "Definition gen_sz_histogram : Z := %d.\nDefinition gen_sz_pixelcount : Z := %d.\n"
+            "Definition gen_sz_histograms : Z := %d.\nDefinition gen_memsize_bits : Z := %d.\n"
+            % (mul, den, decl[0], n, d, szs[0], szs[1], szs[2], bits))
     return {"theories/Gen/MedianConstC07.v": text}
 
 
@@ -329,6 +382,66 @@ def _seq_case(rng, big, rmax):
     return {"fn": "seq", "calls": calls, "radius": a["radius"], "data": a["data"], "mask": a["mask"]}
 
 
+WIDE_PERIOD = [0, 3, 6, 9, 12, 15, 18]
+WIDE_N = 1573243          # the tester's width: columns + 2*radius + 1 = 1573248 at radius 2 (finding F23)
+
+
+def _wide_case(H, W, radius, percent, call="kernel", period=None, mperiod=None):
+    """very wide / very tall image with periodic contents: the output is checked on three narrow crops
+    (both ends, the middle) and for periodicity in between; the call runs in a forked child"""
+    return {"fn": "wide", "H": H, "W": W, "radius": radius, "percent": percent, "call": call,
+            "period": period or WIDE_PERIOD, "mperiod": mperiod, "K": 48}
+
+
+def _wide_cases(ctx):
+    rng = ctx.rng
+    cs = [_wide_case(1, WIDE_N - 1, 2, 50, "kernel"),                       # last width that works
+          _wide_case(1, WIDE_N, 2, 50, "wrapper"),                          # F23: SIGSEGV
+          _wide_case(WIDE_N + int(rng.randint(0, 5000)), 1, 2, int(rng.choice([25, 50, 75])), "wrapper",
+                     mperiod=[1, 1, 1, 0, 1])]                              # very tall: small stripe, no wrap
+    if not ctx.quick():
+        cs += [_wide_case(2, WIDE_N - 1, 2, 75, "wrapper", mperiod=[1, 0, 1, 1]),
+               _wide_case(2, WIDE_N, 2, 75, "kernel"),
+               _wide_case(1, WIDE_N - 7, 5, 50, "kernel", period=[200, 10, 10, 90, 255, 0, 17, 17, 16, 15, 31]),
+               _wide_case(1, WIDE_N - 6, 5, 50, "kernel"),
+               _wide_case(1, WIDE_N + int(rng.randint(1, 400000)), 3, 50, "kernel"),
+               _wide_case(1, 1000000 + int(rng.randint(0, 500000)), 4, 0, "wrapper", mperiod=[1, 1, 0]),
+               _wide_case(3000000 + int(rng.randint(0, 1000)), 1, 3, 100, "kernel"),
+               _wide_case(1500000, 2, 2, 50, "kernel", mperiod=[1, 0, 1])]
+    return cs
+
+
+def _wide_axes(case):
+    """(long axis length N, short axis length S, wide?)"""
+    H, W = case["H"], case["W"]
+    return (W, H, True) if W >= H else (H, W, False)
+
+
+def _wide_crop(case, t0, t1):
+    """data and mask (nested lists, image orientation) of the pixels with long-axis coordinate t0 <= t < t1"""
+    N, S, wide = _wide_axes(case)
+    p, q = case["period"], case["mperiod"]
+    val = lambda t, s: p[(t + 2 * s) % len(p)]
+    msk = lambda t, s: 1 if q is None else q[(t + s) % len(q)]
+    if wide:
+        return ([[val(t, s) for t in range(t0, t1)] for s in range(S)], [[msk(t, s) for t in range(t0, t1)] for s in range(S)])
+    return ([[val(t, s) for s in range(S)] for t in range(t0, t1)], [[msk(t, s) for s in range(S)] for t in range(t0, t1)])
+
+
+def _wide_segments(case):
+    """the three crops: (name, crop start, crop end, offset of the compared part inside the crop, start of the
+    compared part in the image)"""
+    N, S, wide = _wide_axes(case)
+    K = min(case["K"], N)
+    Rr = max(2, case["radius"])
+    M = N // 2
+    segs = [("head", 0, min(N, K + Rr), 0, 0)]
+    if N > 2 * (K + Rr):
+        segs.append(("tail", N - K - Rr, N, Rr, N - K))
+        segs.append(("mid", M - Rr, M + K + Rr, Rr, M))
+    return segs, K
+
+
 def _corpus():
     res = []
     for p in sorted(glob.glob(os.path.join(os.path.dirname(__file__), "..", "..", "corpus", ID, "*.json"))):
@@ -370,6 +483,7 @@ def generate(ctx):
     for _ in range(ctx.n(60, 600)):       # alternating calls in one process
         cases.append(_seq_case(rng, big, rmax))
 
+    cases.extend(_wide_cases(ctx))
     # corpus first; then the radii the property holds for, the F2 class (radius 1) last, so that the
     # first reported violation of a new defect is not mixed up with the known finding
     nc = len(_corpus())
@@ -377,7 +491,9 @@ def generate(ctx):
     for c in cases:
         ctx.count(c["fn"])
         ctx.count("radius=%d" % c["radius"] if c["radius"] <= 8 else "radius>8")
-        H, W = len(c["data"]), len(c["data"][0])
+        H, W = (c["H"], c["W"]) if c["fn"] == "wide" else (len(c["data"]), len(c["data"][0]))
+        if c["fn"] == "wide":
+            ctx.count("wide:%s" % ("1xN" if H == 1 else "Nx1" if W == 1 else "2xN/Nx2"))
         ctx.count("shape:" + ("1x1" if H * W == 1 else "line" if min(H, W) == 1 else
                               "<=window" if max(H, W) <= c["radius"] else "<=14" if max(H, W) <= 14 else ">14"))
         for w in (c["calls"] if c["fn"] == "seq" else [c]):
@@ -468,7 +584,75 @@ class _NPProxy(object):
         return r
 
 
+def _wide_child(case):
+    """runs in the forked child: the call and the compact description of its output"""
+    import math
+    N, S, wide = _wide_axes(case)
+    p, q = np.array(case["period"], np.int64), case["mperiod"]
+    t = np.arange(N, dtype=np.int64)
+    cols_ = [p[(t + 2 * s) % len(p)] for s in range(S)]
+    d = np.stack(cols_, 0 if wide else 1).astype(np.uint8)
+    if q is None:
+        m = np.ones(d.shape, bool)
+    else:
+        qa = np.array(q, np.int64)
+        m = np.stack([qa[(t + s) % len(q)] for s in range(S)], 0 if wide else 1).astype(bool)
+    d = np.ascontiguousarray(d); m = np.ascontiguousarray(m)
+    if case["call"] == "kernel":
+        from centrosome import _filter
+        out = np.zeros(d.shape, np.uint8)
+        _filter.median_filter(d, m.astype(np.uint8), out, case["radius"], case["percent"])
+    else:
+        from centrosome import filter as F
+        out = np.asarray(F.median_filter(d, None if q is None else m, case["radius"], case["percent"]))
+    o = {"shape": list(out.shape)}
+    lo = out if wide else out.T                      # long axis last
+    segs, K = _wide_segments(case)
+    for name, _, _, _, start in segs:
+        o[name] = lo[:, start:start + K].astype(np.int64).tolist()
+    L = len(case["period"]) if q is None else (len(case["period"]) * len(q)) // math.gcd(len(case["period"]), len(q))
+    Rr = max(2, case["radius"])
+    o["periodic"] = True
+    if N > 2 * Rr + 2 * L:
+        a, b = lo[:, Rr:N - Rr - L], lo[:, Rr + L:N - Rr]
+        bad = np.argwhere(a != b)
+        if len(bad):
+            o["periodic"] = False
+            o["first_bad"] = int(bad[:, 1].min()) + Rr
+    return o
+
+
+def _wide_impl(case):
+    """fork-isolated: a crash of the compiled kernel is an outcome of the case, not of the worker"""
+    r, w = os.pipe()
+    pid = os.fork()
+    if pid == 0:
+        code = 0
+        try:
+            os.close(r)
+            try:
+                res = _wide_child(case)
+            except BaseException as e:
+                res = {"exc": type(e).__name__, "msg": str(e)[:300]}
+            with os.fdopen(w, "w") as f:
+                f.write(json.dumps(res))
+        except BaseException:
+            code = 3
+        os._exit(code)
+    os.close(w)
+    with os.fdopen(r) as f:
+        txt = f.read()
+    _, st = os.waitpid(pid, 0)
+    if os.WIFSIGNALED(st):
+        return {"sig": int(os.WTERMSIG(st))}
+    if not txt:
+        return {"exc": "ChildFailed", "msg": "exit status %d" % st}
+    return json.loads(txt)
+
+
 def impl(case):
+    if case["fn"] == "wide":
+        return _wide_impl(case)
     if case["fn"] == "seq":
         # several calls in one process, alternating inputs (a stale cache between calls would show)
         return {"outs": [_safe_impl(c) for c in case["calls"]]}
@@ -580,7 +764,36 @@ def _model_flat(ctx, cases, outs):
              outs[k].get("orders") or []] for k in wi]
     for k, r in zip(wi, _par_model(ctx, "entry_wcorr", args)):
         res[k] = r
+    # very wide / very tall images: the line-level model on the three crops
+    vi = [k for k, c in enumerate(cases) if c["fn"] == "wide"]
+    jobs = []
+    for k in vi:
+        segs, K = _wide_segments(cases[k])
+        for name, t0, t1, off, start in segs:
+            d, m = _wide_crop(cases[k], t0, t1)
+            jobs.append((k, name, [d, m, cases[k]["radius"], cases[k]["percent"]]))
+    if jobs:
+        for (k, name, _), r in zip(jobs, ctx.run_model("entry_corr", [a for _, _, a in jobs])):
+            if res[k] is None:
+                res[k] = {}
+            res[k][name] = r
     return res
+
+
+def _wide_cmp(case, out, name, img, counts):
+    """first difference between the implementation's segment [name] and the image [img] computed on the crop"""
+    N, S, wide = _wide_axes(case)
+    segs, K = _wide_segments(case)
+    off = [s for s in segs if s[0] == name][0][3]
+    for s in range(S):
+        for k in range(K):
+            if wide:
+                exp, cnt = img[s][off + k], counts[s][off + k]
+            else:
+                exp, cnt = img[off + k][s], counts[off + k][s]
+            if cnt > 0 and out[name][s][k] != exp:
+                return "%s segment, long-axis offset %d, short-axis %d: impl %s expected %s" % (name, k, s, out[name][s][k], exp)
+    return None
 
 
 def _diff_where(counts, a, b):
@@ -597,6 +810,20 @@ def _diff_where(counts, a, b):
 
 
 def _compare1(case, out, m):
+    if case["fn"] == "wide":
+        if isinstance(out, dict) and "sig" in out:
+            return None                    # a crash is judged in check / attribute, the model has no crashes
+        if _bad(out):
+            return "implementation raised: %s" % (str(out)[:200],)
+        for name, r in (m or {}).items():
+            if not isinstance(r, list) or len(r) != 3:
+                return "model error on the %s crop: %s" % (name, str(r)[:200])
+            d = _wide_cmp(case, out, name, r[0], r[2])
+            if d:
+                return "very wide/tall image differs from the AsIs model on a crop: " + d
+            if r[1] != 1:
+                return "the Fixed model does not meet the spec on the %s crop" % name
+        return None
     if case["fn"] == "kernel":
         if _bad(out):
             return "implementation raised/crashed: %s" % (str(out)[:200],)
@@ -702,9 +929,25 @@ def _check_flat(ctx, cases, outs):
     res = [None] * len(cases)
     jobs = []          # (case index, args for entry_check)
     merges = []
+    wjobs = []
     for k, (c, o) in enumerate(zip(cases, outs)):
+        if c["fn"] == "wide" and isinstance(o, dict) and "sig" in o:
+            res[k] = CRASH_FAIL % o["sig"]
+            continue
         if _bad(o):
             res[k] = "implementation raised/crashed on a valid input: %s" % (str(o)[:300],)
+            continue
+        if c["fn"] == "wide":
+            if o["shape"] != [c["H"], c["W"]]:
+                res[k] = "result has the wrong shape"
+            elif not o["periodic"]:
+                res[k] = ("output is not periodic where image and mask are (first at long-axis coordinate %s): the "
+                          "percentile of identical windows differs" % o.get("first_bad"))
+            else:
+                segs, K = _wide_segments(c)
+                for name, t0, t1, off, start in segs:
+                    d, m = _wide_crop(c, t0, t1)
+                    wjobs.append((k, name, [d, m, c["radius"], c["percent"]]))
             continue
         if c["fn"] == "kernel":
             jobs.append((k, [c["data"], c["mask"], c["radius"], c["percent"], o["out"]]))
@@ -758,6 +1001,12 @@ def _check_flat(ctx, cases, outs):
             continue
         merges.append((k, [[[x, r] for x, r in zip(flat, o["ro_rank"])], o["ro_tr"]]))
         jobs.append((k, [o["k_in"], mask, c["radius"], c["percent"], o["k_out"]]))
+    if wjobs:       # the specified image of each crop (Spec.MedianSpec.spec_img), compared on the segment
+        for (k, name, _), r in zip(wjobs, ctx.run_model("entry_spec", [a for _, _, a in wjobs])):
+            if res[k] is None:
+                d = _wide_cmp(cases[k], outs[k], name, r[0], r[1])
+                if d:
+                    res[k] = CHECK_FAIL + " [" + d + "]"
     if merges:
         for (k, _), r in zip(merges, _par_model(ctx, "entry_merge", [a for _, a in merges])):
             if r != 1 and res[k] is None:
@@ -785,6 +1034,8 @@ def nontrivial(case, out):
         return False
     if case["fn"] == "seq":
         return any(nontrivial(sc, so) for sc, so in zip(case["calls"], out.get("outs", [])))
+    if case["fn"] == "wide":
+        return "sig" not in out
     mask = _mask_of(case)
     vals = set(x for rd, rm in zip(case["data"], mask) for x, m in zip(rd, rm) if m)
     return len(vals) >= 2 and len(case["data"]) * len(case["data"][0]) >= 4
@@ -809,6 +1060,14 @@ def _decide(view, m, g):
 
 
 def attribute(ctx, case, out, clause):
+    if case["fn"] == "wide":
+        # F23 iff the call crashed AND the allocation size of allocate_histograms as written wraps for this
+        # (columns, radius) (extracted Model.MedianAlloc.alloc_wraps); any other crash is a violation
+        if isinstance(out, dict) and "sig" in out and clause == CRASH_FAIL % out["sig"]:
+            a = ctx.run_model("entry_alloc", [[case["W"], case["radius"]]])[0]
+            if isinstance(a, list) and len(a) == 3 and a[2] == 1:
+                return "F23"
+        return None
     if clause != CHECK_FAIL or _bad(out):
         return None
     key = _attr_key(case, out)
@@ -861,6 +1120,8 @@ def search_cases(ctx, rnd):
 
 
 def shrink_candidates(case):
+    if case["fn"] == "wide":
+        return
     if case["fn"] == "seq":
         for sc in case["calls"][:2]:
             yield sc
@@ -919,8 +1180,13 @@ MANIFEST = {
     "level_note": (
         "Trusted: Coq kernel + vm_compute; extraction (ExtrOcamlBasic only) and the S-expression driver; the Python "
         "harness; NumPy semantics of the wrapper as modelled; float->int truncation of the octagon side checked in "
-        "Python for radius <= 4096. The tie between model and code is differential, not a proof about C. Known "
-        "finding F2 (radius 1) is attributed by the model variants, never muted."),
+        "Python for radius <= 4096; struct sizes and the C type of memory_size measured/parsed from _filter.cpp. The tie "
+        "between model and code is differential, not a proof about C. Known findings, attributed by the model, never "
+        "muted: F2 (radius 1: sweeps use the caller's radius) and F23 (SIGSEGV for columns + 2*radius + 1 >= 1573248: "
+        "the scratch size is computed into a 32-bit unsigned int and wraps; attributed iff a fork-isolated call crashes "
+        "AND Model.MedianAlloc.alloc_wraps holds for its (columns, radius); any other crash is a violation). The "
+        "theorems about the kernel carry over to the compiled code only below that threshold "
+        "(C07_alloc_size_exact_below) and for rows*columns < 2^31 (int32 strides; beyond: out of the quantifier, resource)."),
     "technique": "Coq proof over executable line-level model + exact differential correspondence (extracted OCaml "
                  "and vm_compute) + verified checker on the implementation's output",
     "design_ref": "DESIGN.md section 7, C07; section 6 F2",
